@@ -117,10 +117,7 @@ func ruleRenderTerminal(w *World, r *Report, pfx string) {
 			okAssign := len(stF) == 1 && isLoad(Val{V: stripConv(stF[0].Val.V)}, tBState, "shutdown")
 			okInc := false
 			if len(stS) == 1 {
-				if add, ok := stS[0].Val.V.(*ssa.BinOp); ok && add.Op == token.ADD {
-					k, isK := constInt(add.Y)
-					okInc = isK && k == 1 && isLoad(Val{V: add.X}, tBState, "shutdown")
-				}
+				okInc = incrOf(stS[0].Val.V, tBState, "shutdown")
 			}
 			switch {
 			case !okAssign:
